@@ -365,6 +365,9 @@ func runC09(c *Ctx) {
 	// accumulating inputs must be clean; the whole pool shows the known race
 	var clean, all []histCall
 	for i := 0; i < ap.NDec; i++ {
+		if ap.isSolo(i) {
+			continue
+		}
 		note := ap.Notes[i]
 		acc := strings.Contains(note, "component stream") || strings.Contains(note, "compressed-speed-distance") || strings.Contains(note, "generated stream") || strings.Contains(note, "chain: A")
 		api := "decode"
